@@ -56,6 +56,7 @@ METAS = [
     dict(name="m5", version="1.0", type=("tdm", [], [("temporal_modes", N("2")), ("copies", B("*", N("2"), N("5")))])),
     dict(name="m6", version="1.0", target=("TD2", None, []), type=("tdm", None, [])),
     dict(name="m7", version="1.0", target=("x.y_1", [], []), type=("other", [], [("k", U("-", N("1.5")))])),
+    dict(name="m8", version="1.0", target=("g", [], [("a", L(N("1"), N("2"))), ("b", L(N("3"))), ("c", L(S("x"), BOOL(False)))]), type=("t", [], [("d", L(N("0.5"))), ("e", L(N("1"), N("2")))])),
 ]
 
 
